@@ -709,6 +709,65 @@ func init() {
 					}
 					judgeExpr(c, model.Binary{Op: "+", L: model.Var{Name: "x"}, R: model.Var{Name: "x"}}, map[string]model.Value{"x": nn.eq}, "native-number")
 				}})
+			// one loaded page of expressions rendered with data sets that print alike but are of different types, through
+			// String and Response (strings holding percent signs included); struct bindings with unexported fields in front
+			type c01Acct struct {
+				hidden  int
+				Owner   string
+				secret  string
+				Limit   int
+				Rate    float64
+				private []int
+				Note    string
+			}
+			lookAlike := []map[string]any{
+				{"a": 1, "b": 2, "s": "75% or more"}, {"a": 1.0, "b": 2.0, "s": "75% or more"}, {"a": "1", "b": "2", "s": "75% or more"}, {"a": uint8(1), "b": int64(2), "s": "75% or more"},
+				{"a": 1, "b": 2.0, "s": "75% or more"}, {"a": true, "b": false, "s": "50% off %v"}, {"a": int32(1), "b": uint16(2), "s": "75% or more"}, {"a": []int{1}, "b": []int{2}, "s": "%d %s"},
+				{"a": []any{1}, "b": []any{2}, "s": "%d %s"}, {"a": []string{"1"}, "b": []string{"2"}, "s": "%d %s"}, {"a": 2, "b": 1, "s": "75% or more"},
+			}
+			secs = append(secs, core.Section{Name: "loaded-page-with-look-alike-data", Exhaustive: true, N: 2,
+				Run: func(c *core.Ctx, i int) {
+					page := "{{ a + b }}|{{ a == b }}|{{ s + \"!\" }}|{{ \"20% of \" + s }}|{{ acc.limit + 2 }}|{{ acc.owner }}|{{ acc.rate * 2.0 }}|{{ acc.note }}"
+					files := map[string]string{"page.tw": page}
+					tpl, err := loadTree(c, "c01tree", files, ".tw")
+					c.Nontrivial(fmt.Sprint("look-alike", i))
+					if err != nil || tpl == nil {
+						if err != nil {
+							c.Violation("loaded-page:load-failed", err.Error(), nil)
+						}
+						return
+					}
+					order := lookAlike
+					if i == 1 {
+						order = append(append([]map[string]any{}, lookAlike[4:]...), lookAlike[:4]...)
+					}
+					for round := 0; round < 2; round++ {
+						for _, d := range order {
+							data := map[string]any{"acc": c01Acct{hidden: 1, Owner: "ann", secret: "x", Limit: 40, Rate: 1.25, Note: "n"}}
+							for k, v := range d {
+								data[k] = v
+							}
+							want := evalString(c, page, data)
+							got, _ := renderPage(c, tpl, "page", data)
+							if want.Panicked || got.Panicked {
+								return
+							}
+							same := got.Out == want.Out && (got.Err == nil) == (want.Err == nil)
+							if same && got.Err != nil {
+								same = ErrMessage(got.Err) == ErrMessage(want.Err)
+							}
+							if !same {
+								c.Violation("loaded-page:differs", fmt.Sprintf("the loaded page with a=%#v b=%#v s=%q gave %s; the same source as a string gives %s", d["a"], d["b"], d["s"], clipS(got.Describe(), 200), clipS(want.Describe(), 200)), map[string]any{"page": page})
+								return
+							}
+						}
+					}
+					// what the string API gives is judged too
+					first := evalString(c, page, map[string]any{"a": 1, "b": 2, "s": "75% or more", "acc": c01Acct{Owner: "ann", Limit: 40, Rate: 1.25, Note: "n"}})
+					if want := "3|0|75% or more!|20% of 75% or more|42|ann|2.5|n"; !first.Panicked && (first.Err != nil || first.Out != want) {
+						c.Violation("loaded-page:string", fmt.Sprintf("the page as a string gave %s, want %q", first.Describe(), want), map[string]any{"page": page})
+					}
+				}})
 			// the same expression evaluated in several passes of a loop gives the same value every time
 			// long and deep expressions: chains of 16..1000 operands, nests of 64..300 parentheses, ternaries, prefix
 			// operators, member calls, literals with many elements
